@@ -241,19 +241,45 @@ fn format_node<'source>(
             start,
             end,
             inclusive,
-        } => GroupBuilder::new(3, node, ctx, trivia)
-            .node(*start)
-            .str(if *inclusive { "..=" } else { ".." })
-            .node(*end)
-            .build(),
+        } => {
+            // An end value that starts with a dot (i.e. another range without a start value)
+            // needs to be separated from the range operator
+            let end_starts_with_dot = matches!(
+                ctx.node(*end).node,
+                Node::RangeTo { .. } | Node::RangeFull
+            );
+            let op = match (*inclusive, end_starts_with_dot) {
+                (false, false) => "..",
+                (false, true) => ".. ",
+                (true, false) => "..=",
+                (true, true) => "..= ",
+            };
+            GroupBuilder::new(3, node, ctx, trivia)
+                .node(*start)
+                .str(op)
+                .node(*end)
+                .build()
+        }
         Node::RangeFrom { start } => GroupBuilder::new(2, node, ctx, trivia)
             .node(*start)
             .str("..")
             .build(),
-        Node::RangeTo { end, inclusive } => GroupBuilder::new(2, node, ctx, trivia)
-            .str(if *inclusive { "..=" } else { ".." })
-            .node(*end)
-            .build(),
+        Node::RangeTo { end, inclusive } => {
+            let end_starts_with_dot = matches!(
+                ctx.node(*end).node,
+                Node::RangeTo { .. } | Node::RangeFull
+            );
+            let op = match (*inclusive, end_starts_with_dot) {
+                (false, false) => "..",
+                (false, true) => ".. ",
+                (true, false) => "..=",
+                (true, true) => "..= ",
+            };
+            GroupBuilder::new(2, node, ctx, trivia)
+                .str(op)
+                .node(*end)
+                .build()
+        }
         Node::RangeFull => "..".into(),
         Node::Map { entries, braces } => {
             if *braces {
